@@ -6,6 +6,7 @@ package quic
 
 //@ func (s *baseServer) validateToken
 //@   props C14
+//@   nilable token
 //@   requires s.config != nil
 //@   ensures [nil-token] implies(token == nil, !result)
 //@   ensures [address] implies(result, token != nil && ufb("addrmatch", token, addr))
